@@ -146,7 +146,7 @@ impl C01 {
                             if o.budget {
                                 rep.violation(
                                     &format!("iterator_budget|{}", name),
-                                    format!("{}: an iterator yielded more items than its byte budget allows, or produced an item after it was exhausted", name),
+                                    format!("{}: an iterator yielded more items than its byte budget allows, produced an item after it was exhausted, or its size_hint() did not bracket the items still to come", name),
                                     bytes,
                                 );
                             }
@@ -207,6 +207,79 @@ impl C01 {
                 });
                 !o.budget_exceeded
             });
+        }
+    }
+
+    /// Results whose parts are public (`IpHeadersSlice::{Ipv4,Ipv6}(header, exts)`, the fields of
+    /// `SlicedPacket` / `LaxSlicedPacket`) can be assembled by the caller from two independently
+    /// decoded packets. Every part is a validated view, so every method of the assembled value
+    /// still has to return normally and stay inside the bytes of its parts.
+    fn mixed(&mut self, rep: &mut Report, rng: &mut Prng) {
+        let lie = if rng.chance(2, 3) { gen::Lie::None } else { gen::Lie::Any };
+        let which = rng.below(3);
+        let (a, b) = match which {
+            0 => (gen::gen_ipv6(rng, lie).bytes, gen::gen_ipv6(rng, lie).bytes),
+            1 => (gen::gen_ipv4(rng, lie).bytes, gen::gen_ipv4(rng, lie).bytes),
+            _ => {
+                let mut o = if lie == gen::Lie::None { GenOpts::clean() } else { GenOpts::hostile() };
+                o.start = StartSel::Eth;
+                (gen::gen_case(rng, &o).bytes, gen::gen_case(rng, &o).bytes)
+            }
+        };
+        let n = a.len();
+        let mut cat = a;
+        cat.extend_from_slice(&b);
+        match which {
+            0 => self.drive(rep, "IpHeadersSlice::Ipv6 assembled from two packets", 9101, &cat, move |input, cx| {
+                let (x, y) = input.split_at(n);
+                let (Ok((sx, _)), Ok((sy, _))) = (LaxIpv6Slice::from_slice(x), LaxIpv6Slice::from_slice(y)) else {
+                    return true;
+                };
+                set_sig(&format!("{:?}|{:?}", sx.header().next_header(), sy.extensions().first_header()));
+                exhaust::ip_headers_slice(cx, &IpHeadersSlice::from((sx.header(), sy.extensions().clone())));
+                exhaust::ip_headers_slice(cx, &IpHeadersSlice::Ipv6(sy.header(), sx.extensions().clone()));
+                exhaust::ip_headers_slice(cx, &IpHeadersSlice::from(sx.header()));
+                true
+            }),
+            1 => self.drive(rep, "IpHeadersSlice::Ipv4 assembled from two packets", 9102, &cat, move |input, cx| {
+                let (x, y) = input.split_at(n);
+                let (Ok((sx, _)), Ok((sy, _))) = (LaxIpv4Slice::from_slice(x), LaxIpv4Slice::from_slice(y)) else {
+                    return true;
+                };
+                set_sig(&format!("{:?}|{}", sx.header().protocol(), sy.extensions().auth.is_some()));
+                exhaust::ip_headers_slice(cx, &IpHeadersSlice::from((sx.header(), sy.extensions())));
+                exhaust::ip_headers_slice(cx, &IpHeadersSlice::Ipv4(sy.header(), sx.extensions()));
+                exhaust::ip_headers_slice(cx, &IpHeadersSlice::from(sx.header()));
+                true
+            }),
+            _ => {
+                let pick = rng.below(16) as u8;
+                self.drive(rep, "SlicedPacket assembled from two packets", 9103, &cat, move |input, cx| {
+                    let (x, y) = input.split_at(n);
+                    let mut ok = true;
+                    if let (Ok(pa), Ok(pb)) = (SlicedPacket::from_ethernet(x), SlicedPacket::from_ethernet(y)) {
+                        let m = SlicedPacket {
+                            link: if pick & 1 == 0 { pa.link.clone() } else { pb.link.clone() },
+                            link_exts: if pick & 2 == 0 { pa.link_exts.clone() } else { pb.link_exts.clone() },
+                            net: if pick & 4 == 0 { pa.net.clone() } else { pb.net.clone() },
+                            transport: if pick & 8 == 0 { pa.transport.clone() } else { pb.transport.clone() },
+                        };
+                        set_sig(&format!("s{}|{}|{}|{}", pick, m.link_exts.len(), m.net.is_some(), m.transport.is_some()));
+                        ok &= exhaust::sliced_packet(cx, &m);
+                    }
+                    if let (Ok(pa), Ok(pb)) = (LaxSlicedPacket::from_ethernet(x), LaxSlicedPacket::from_ethernet(y)) {
+                        let m = LaxSlicedPacket {
+                            link: if pick & 1 == 0 { pa.link.clone() } else { pb.link.clone() },
+                            link_exts: if pick & 2 == 0 { pa.link_exts.clone() } else { pb.link_exts.clone() },
+                            net: if pick & 4 == 0 { pa.net.clone() } else { pb.net.clone() },
+                            transport: if pick & 8 == 0 { pa.transport.clone() } else { pb.transport.clone() },
+                            stop_err: if pick & 1 == 0 { pb.stop_err.clone() } else { pa.stop_err.clone() },
+                        };
+                        ok &= exhaust::lax_sliced_packet(cx, &m);
+                    }
+                    ok
+                })
+            }
         }
     }
 
@@ -632,6 +705,7 @@ impl Monitor for C01 {
             ("typed", tier.pick(300_000, 3_000_000)),
             ("noise", tier.pick(60_000, 600_000)),
             ("corpus", tier.pick(60_000, 800_000)),
+            ("mixed", tier.pick(60_000, 800_000)),
         ]
     }
 
@@ -678,6 +752,7 @@ impl Monitor for C01 {
             }
             "single" => self.single(rep, rng),
             "typed" => self.typed(rep, rng),
+            "mixed" => self.mixed(rep, rng),
             "noise" => {
                 // unstructured bytes through every whole-packet start point
                 let n = match rng.below(4) {
